@@ -75,9 +75,9 @@ PROPS = {
         partial=[]),
     "C05": rt(500, 10000, ["serve", "handle-rejected"],
         "40% malformed / arbitrary-byte patterns, reserved/unknown/duplicate methods, raw paths ('', '*', NUL, 0xff, long), Remove/Clean histories, URL and CheckSyntax on the same strings; every call under recover()",
-        props=["TreeMatch", "C05hist", "C05parse", "C05reg", "Consts", "C03router"], extra_runs=[("C14", "C05m", 0.4), ("C15", "C05m", 0.3), ("C13", "C05g", 0.3)],
+        props=["TreeMatch", "C05hist", "C05parse", "C05reg", "Consts", "C03router", "PureFuns"], extra_runs=[("C14", "C05m", 0.4), ("C15", "C05m", 0.3), ("C13", "C05g", 0.3)],
         level_text="C05_serve_total: for EVERY history of Handle/Remove/Clean/Use from a new tree (any patterns, any methods, rejected calls included) and every request (any method bytes, any path bytes incl. '' and '*'), dispatch returns a handler and never faults - by the invariant tree_safe (index entries in range, 405 handler wherever handlers exist, root answers) proved for new_tree and preserved by tree_add (through the continuation-passing add_segment/split), tree_remove, tree_clean and tree_apply_mw (C05_add_safe, C05_remove_safe, C05_clean_safe, C05_use_safe, C05_handler_total); C05_match_no_panic, C05_build_indexes_ok, C05_sort_node_idx_ok underneath. C05_check_syntax_no_panic / C05_split_no_panic / C05_url_nonstrict_no_panic / C05_mux_url_no_panic: CheckSyntax and URL never fault on ANY byte string; C05_new_segment_panic_iff characterises exactly when the internal NewSegment would fault (a ':' before the first '{' - refuted for arbitrary input, proved unreachable through Split). Every Go fault site of the modelled code is an explicit Panic result in the model, compared with the implementation's recover() classification.",
-        level_note="proved for dispatch (C05_serve_total), for registration/removal/cleaning on every reachable table and every byte string (C05_add_never_faults, C05_remove_never_faults, C05_clean_never_faults: Handle either registers or returns an error value; the fuel handed out by tree_add is always sufficient; labels of reachable trees never hit the one input class on which NewSegment faults), for CheckSyntax/URL on every byte string, and for Hosts.Match on every reachable hosts tree (C14_hosts_match_total). Version matchers are total by construction (no partial operation in the model); net/http glue (request construction, ResponseWriter) is exercised, not proved.",
+        level_note="C05_tree_match_is_source: Tree.match of the CURRENT source (TRACE short-circuit, root for '*'/'', nil/size()==0 -> notFound, registered method -> found, else the 405 handler), translated on every run by tools/srcfacts (returns mode: index and text of the return statement reached), takes exactly the decision of the model's tree_handler for all trees, methods, paths and parameters; proved for dispatch (C05_serve_total), for registration/removal/cleaning on every reachable table and every byte string (C05_add_never_faults, C05_remove_never_faults, C05_clean_never_faults: Handle either registers or returns an error value; the fuel handed out by tree_add is always sufficient; labels of reachable trees never hit the one input class on which NewSegment faults), for CheckSyntax/URL on every byte string, and for Hosts.Match on every reachable hosts tree (C14_hosts_match_total). Version matchers are total by construction (no partial operation in the model); net/http glue (request construction, ResponseWriter) is exercised, not proved.",
         partial=[]),
     "C06": {"kind": "conc", "scenario": "c06", "props": ["C06", "ConcGeneric"],
         "quick": {"seconds": 4, "seeds": 1}, "thorough": {"seconds": 60, "seeds": 5},
@@ -125,12 +125,12 @@ PROPS = {
         "groups of 1-4 routers with Hosts / path-version / header-version / nil / And-Or nests (depth <= 2) in which an early member mutates and a later one rejects; Add/New/Remove/Use histories; 14 requests per case over hosts x version prefixes x Accept x paths",
         suite="C13", props=["C13", "C14tree"],
         level_text="C13_reject_clean (by induction over the matcher AST: a rejecting matcher, also inside And/Or, leaves request and parameters untouched), C13_first_accepting, C13_none_accepts, C13_or_first, C13_and_accepts_all, C13_names_unique, C13_add_duplicate_rejected, C13_remove, C13_notfound_wrapped.",
-        level_note="Hosts members are assumed 'clean' (a rejection leaves the parameters alone). For every reachable Hosts tree this is PROVED when the context is empty (C13_hosts_clean_empty_ctx: the case Group dispatch produces for a top-level Hosts matcher) and when the tree's parameter names and the empty name are not keys of the context (C13_hosts_clean_when_disjoint_partial); C13_hosts_clean_unconditional_refuted shows the disjointness condition is necessary (an incoming parameter with the same name as a domain parameter is deleted by the backtracking undo). Custom matchers are outside the model."),
+        level_note="matcher_ok asks of a Hosts member that a rejection leaves a duplicate-free parameter list as it was and that an answer keeps it duplicate-free; since the repair of F28 (Hosts.Match puts back what its lookup deleted; model: hosts_match = restore_missing after hosts_match_raw) this is PROVED for every reachable Hosts tree with no side condition on parameter names (C13_hosts_clean_reachable, C14_hosts_reject_clean, C14_hosts_nodup), so C13_reject_clean applies to every matcher built from reachable Hosts trees; C13_match_nodup: every matcher keeps the list duplicate-free; C14_hosts_lookup_alone_loses_refuted: the tree lookup alone does lose parameters, i.e. the repair is necessary. Custom matchers are outside the model."),
     "C14": rt(300, 5000, ["hmatch-accept"],
         "Add/Delete/RegisterInterceptor histories over >=6 literal domains + parameterised domains in mixed case; hosts in any case, with ports, brackets, invalid ports, '', '*'; dump after every step",
         suite="C14", props=["C14", "C14tree", "C14resolve"],
         level_text="C14_normalise_is_lower, C14_strip_port_valid/_invalid, C14_strip_brackets, C14_add_ci, C14_delete_ci, C14_match_uses_normalised; matching itself is the shared tree (C01/C02 theorems).",
-        level_note="C14_hosts_bridge: a hosts history whose interceptor registrations precede the first Add is a tree history (the other order is shown to differ: C14_hosts_bridge_refuted); on such histories C14_hosts_refines_resolver / C14_hosts_accepts_iff_resolves (add-only: Match accepts iff the C02 resolver finds a domain, with exactly its parameters; '' and '*' always rejected), C14_hosts_delete_frame, C14_hosts_deleted_gone_ci, C14_hosts_sound, C14_hosts_live_served. Non-ASCII hosts/domains are outside the model (strings.ToLower is Unicode-aware). Known finding F28: a lookup deletes a pre-existing parameter named like a domain parameter (C14_hosts_reject_clean needs disjointness; _refuted shows why)."),
+        level_note="C14_hosts_bridge: a hosts history whose interceptor registrations precede the first Add is a tree history (the other order is shown to differ: C14_hosts_bridge_refuted); on such histories C14_hosts_refines_resolver / C14_hosts_accepts_iff_resolves (add-only: Match accepts iff the C02 resolver finds a domain, with exactly its parameters; '' and '*' always rejected), C14_hosts_delete_frame, C14_hosts_deleted_gone_ci, C14_hosts_sound, C14_hosts_live_served. Non-ASCII hosts/domains are outside the model (strings.ToLower is Unicode-aware). F28 repaired: C14_hosts_reject_clean (any duplicate-free context, no disjointness), C14_hosts_accept_keeps_earlier (no earlier parameter is ever lost, any tree), C14_hosts_restore_get; the raw lookup alone loses parameters (C14_hosts_lookup_alone_loses_refuted)."),
     "C15": rt(300, 5000, ["pv-accept", "hv-accept"],
         "version lists with/without slashes, overlapping names (v1, v11, v1/x), paths with recurring version text, arbitrary bytes; Accept headers well-formed/garbage (mime.ParseMediaType result supplied by Go)",
         suite="C15", props=["C15"],
